@@ -56,6 +56,29 @@ def okVerify (m : Option Mac.FullMac) (tag msg : Bytes) : String :=
   | none => "err"
   | some m => if m.verify tag msg then "ok" else "reject"
 
+/-! ### compact message descriptions (LARGE-SIZES sections of c04 / c08 / c15)
+
+  A byte-string argument of the `…gen` ops is either an ordinary token or `@<len>:<seedhex>`: the `len` bytes
+  `i ↦ (seed[i mod |seed|] + i + (i >> 8)) mod 256` (seed `-` = no seed byte, i.e. 0). The harnesses generate the
+  same bytes with the same three-term sum, so megabyte inputs travel as a dozen characters. -/
+def genBytes (seed : Bytes) (n : Nat) : Bytes :=
+  let s := seed.toArray
+  let m := s.size
+  (List.range n).map fun i => UInt8.ofNat ((if m = 0 then 0 else (s[i % m]!).toNat) + i + (i >>> 8))
+
+def genTok? (s : String) : Option Bytes :=
+  if s.startsWith "@" then
+    match (s.drop 1).toString.splitOn ":" with
+    | [l, sd] => do
+      let n ← l.toNat?
+      let seed ← bytesOfTok? sd
+      pure (genBytes seed n)
+    | _ => none
+  else bytesOfTok? s
+
+def sha256Hex (b : Bytes) : String := tokOfBytes (hash .sha256 b.toByteArray).toList
+
+
 def handle (toks : List String) : Option String :=
   match toks with
   | ["hmac", h, key, ts, v, id, msg] => do
@@ -142,6 +165,51 @@ def handle (toks : List String) : Option String :=
     let iv ← bytesOfTok? iv
     if iv.length ≠ 16 then pure "err" else
     pure s!"ok {tokOfBytes (Ctr.xorBE E2 (Siv.clearBits iv) (← bytesOfTok? data))}"
+  -- ---------- the same ops with `genTok?` arguments (compact megabyte inputs) ----------
+  | ["gen", n, seed] => do
+    pure (tokOfBytes (genBytes (← bytesOfTok? seed) (← n.toNat?)))
+  | ["gensha", n, seed] => do
+    pure (sha256Hex (genBytes (← bytesOfTok? seed) (← n.toNat?)))
+  | ["hmacgen", h, key, ts, v, id, msg] => do
+    pure (okTag (fullHmac? (← hashAlg? h) (← genTok? key) (← ts.toNat?) (← Variant.ofCode? v) (← id.toNat?)) (← genTok? msg))
+  | ["hmacvgen", h, key, ts, v, id, tag, msg] => do
+    pure (okVerify (fullHmac? (← hashAlg? h) (← genTok? key) (← ts.toNat?) (← Variant.ofCode? v) (← id.toNat?)) (← bytesOfTok? tag) (← genTok? msg))
+  | ["cmacgen", strict, key, ts, v, id, msg] => do
+    pure (okTag (fullCmac? (← bool? strict) (← bytesOfTok? key) (← ts.toNat?) (← Variant.ofCode? v) (← id.toNat?)) (← genTok? msg))
+  | ["cmacvgen", strict, key, ts, v, id, tag, msg] => do
+    pure (okVerify (fullCmac? (← bool? strict) (← bytesOfTok? key) (← ts.toNat?) (← Variant.ofCode? v) (← id.toNat?)) (← bytesOfTok? tag) (← genTok? msg))
+  | ["cmacspecgen", key, msg] => do
+    let E ← aesE? (← bytesOfTok? key)
+    pure (tokOfBytes (Cmac.spec E (← genTok? msg)))
+  | ["xorendspecgen", key, data, last] => do
+    let E ← aesE? (← bytesOfTok? key)
+    pure (tokOfBytes (Cmac.compute E (Cmac.xorend (← genTok? data) (← bytesOfTok? last))))
+  | ["prfgen", "hmac", h, key, inp, n] => do
+    let a ← hashAlg? h
+    let n ← n.toNat?
+    if n > a.digestLen then pure "err" else
+    pure (okB (some ((hmacM a (← genTok? key) (← genTok? inp)).take n)))
+  | ["prfgen", "hkdf", h, key, salt, inp, n] => do
+    let a ← hashAlg? h
+    pure (okB (Hmac.hkdf (hmacM a) a.digestLen (← genTok? key) (← genTok? salt) (← genTok? inp) (← n.toNat?)))
+  | ["prfgen", "cmac", key, inp, n] => do
+    let n ← n.toNat?
+    let E ← aesE? (← bytesOfTok? key)
+    if n > 16 then pure "err" else pure (okB (some ((Cmac.compute E (← genTok? inp)).take n)))
+  | ["hkdfgen", h, key, salt, info, n] => do
+    let a ← hashAlg? h
+    pure (okB (Hmac.computeHKDF (hmacM a) a.digestLen (← genTok? key) (← genTok? salt) (← genTok? info) (← n.toNat?)))
+  | ["sivgen", key, v, id, pt, ad] => do
+    -- answer: ciphertext length, prefix ‖ SIV, SHA-256 (reference hash) of the whole ciphertext
+    let key ← bytesOfTok? key
+    if key.length ≠ 64 then pure "err" else
+    let E1 ← aesE? (key.take 32); let E2 ← aesE? (key.drop 32)
+    let pre := outputPrefix (← Variant.ofCode? v) (← id.toNat?)
+    let ct := Siv.encrypt E1 E2 pre (← genTok? pt) (← genTok? ad)
+    pure s!"ok {ct.length} {tokOfBytes (ct.take (pre.length + 16))} {sha256Hex ct}"
+  | ["s2vspecgen", key, msg, ad] => do
+    let E ← aesE? (← bytesOfTok? key)
+    pure (tokOfBytes (Siv.s2vSpec E (← genTok? msg) (← genTok? ad)))
   | _ => none
 
 end Driver.Sym
